@@ -337,3 +337,35 @@ func H03History() {
 	vndAssert(ok2 && !isErr && h03SameBits(got, wantB), "hist-second-value-through-a-fresh-reader")
 	vndReach("h03:hist")
 }
+
+// H03Long: numbers with hundreds of digits. The digit count is chosen by the solver around
+// the capacity of the reader's 800-byte decimal buffer (case split, executed concretely); a
+// decimal point or exponent may follow. Bit for bit the standard parser's value.
+func H03Long() {
+	n := []int{30, 400, 799, 800, 801, 805, 1100}[vndChoice("digits", 7)]
+	form := vndChoice("form", 4)
+	b := make([]byte, 0, n+10)
+	b = append(b, '1')
+	for k := 0; k < n; k++ {
+		b = append(b, '3')
+	}
+	switch form {
+	case 1:
+		b = append(b, ".5"...)
+	case 2:
+		b = append(b, 'e', '-')
+		b = append(b, []byte(strconv.Itoa(n-5))...)
+	case 3:
+		b = append(b, ".25e-"...)
+		b = append(b, []byte(strconv.Itoa(n+3))...)
+	}
+	want, werr := strconv.ParseFloat(string(b), 64)
+	got, isErr, ok := h03ReadValue(b)
+	vndReach("h03:long")
+	vndAssert(ok, "long-one-positioned-record")
+	vndAssert(isErr == (werr != nil), "long-rejected-exactly-when-the-standard-parser-rejects")
+	if !isErr && werr == nil {
+		vndAssert(h03SameBits(got, want), "long-value-equals-standard-parser")
+	}
+	vndObserveF64("got", got)
+}
